@@ -470,7 +470,15 @@ func c19Shape(c *Ctx, run *ev.Run, s *dagm.Sess, sh copyShape, si int, maxKV int
 				SrcStore string `json:"src_store"`
 				DstStore string `json:"dst_store"`
 			}
-			must(s.N.Call("copy.instance", map[string]interface{}{"uuid": at, "source": src.inst, "target": ci.name, "config": cfg}, &res), "copy.instance")
+			if !v.second && (si+len(copies))%2 == 0 && c19RPCExpressible(cfg) {
+				// the same copy through the "repo <uuid> copy" command (c19_rpc.go)
+				e, err := c19CopyViaRPC(s.N, at, src.inst, ci.name, cfg)
+				must(err, "repo copy command")
+				res.Err = e
+				ci.mode += ", through the RPC command"
+			} else {
+				must(s.N.Call("copy.instance", map[string]interface{}{"uuid": at, "source": src.inst, "target": ci.name, "config": cfg}, &res), "copy.instance")
+			}
 			atomic.AddInt64(ncopies, 1)
 			switch {
 			case res.Panic != "":
